@@ -52,7 +52,7 @@ def history_check(prop, tier, seed, shapes, monitors, modules, profiles, p_inval
 
 
 def check_C01(tier, seed):
-    return history_check("C01", tier, seed, gen.ALL_SHAPES, [mon_c01], ["Soa.Props.C01", "Soa.Props.C01Extracted", "Soa.Lemmas.SkelTie", "Soa.Lemmas.SkelRead.C01", "Soa.Lemmas.LoopTie", "Soa.Lemmas.LoopTieW", "Soa.Lemmas.GenTie"], ["debug", "release"])
+    return history_check("C01", tier, seed, gen.ALL_SHAPES, [mon_c01], ["Soa.Props.C01", "Soa.Props.C01Extracted", "Soa.Lemmas.SkelTie", "Soa.Lemmas.SkelRead.C01", "Soa.Lemmas.LoopTie", "Soa.Lemmas.LoopTieW", "Soa.Lemmas.LoopsW", "Soa.Lemmas.WriteRows", "Soa.Lemmas.RetainIdxW", "Soa.Lemmas.SpecRetainW", "Soa.Lemmas.GenTie"], ["debug", "release"])
 
 def check_C02(tier, seed):
     return history_check("C02", tier, seed, gen.ALL_SHAPES, [mon_c02], ["Soa.Props.C02", "Soa.Props.World", "Soa.Props.C01Extracted", "Soa.Lemmas.SkelTie", "Soa.Lemmas.SkelRead.C01", "Soa.Lemmas.LoopTie", "Soa.Lemmas.LoopTieW", "Soa.Lemmas.GenTie"], ["debug", "release"], p_invalid=0.4)
